@@ -36,11 +36,13 @@ def _report(rep, f, sym, slot, cases, it, name, rule='R-WINDOW', which=('R-WINDO
             return False
         return bad is None
     for (text, ok, line) in it.obligations:
-        if text.startswith(('the newest sample lies', 'the early return', 'the values are returned in the order')):
+        if text.startswith(('the newest sample lies', 'the early return', 'the values are returned in the order', 'equal candidates')):
             # a condition for the derived window to be the operator's value, not an index: reported with the window
             if not ok and 'R-WINDOW' in which and bad is None and text not in seen:
                 seen.add(text)
-                if text.startswith('the values'):
+                if text.startswith('equal candidates'):
+                    pass        # reported by the pairing rule (monotonic_queue_slip) with an example
+                elif text.startswith('the values'):
                     rep.fail(rule, f.module.rel, sym, slot + ':order', 'the result of %s is the right list in the wrong order: cannot show that %s' % (name, text), line)
                 else:
                     rep.fail(rule, f.module.rel, sym, slot + ':shortcut', 'the early result of %s is not the value of its window: cannot show that %s' % (name, text), line)
